@@ -109,6 +109,14 @@ func TestVerifU128Views(t *testing.T) {
 				chk("NewUint128(LE bytes)", want, same(NewUint128(append([]byte(nil), le...))), "C13/NewUint128-LE/"+cl)
 				chk("NewUint128(16 LE bytes)", want, same(NewUint128(append([]byte(nil), v...))), "C13/NewUint128-LE16/"+cl)
 				chk("NewUint128(BE bytes, BigEndian)", want, same(NewUint128(append([]byte(nil), be...), binary.BigEndian)), "C13/NewUint128-BE/"+cl)
+				// the byte form is the bytes of the slice handed in, nothing else: the same bytes as a window of a longer buffer
+				// (a message being parsed) whose other bytes are not zero
+				{
+					buf := append(append([]byte{0xa5, 0x5a, 0xff}, le...), bytes.Repeat([]byte{0xff, 0x81}, 12)...)
+					chk("NewUint128(LE bytes, window of a longer buffer)", want, same(NewUint128(buf[3:3+len(le)])), "C13/NewUint128-LE-window/"+cl)
+					bufb := append(append(bytes.Repeat([]byte{0x81, 0xff}, 12), be...), 0xff, 0x5a, 0xa5)
+					chk("NewUint128(BE bytes, window of a longer buffer)", want, same(NewUint128(bufb[24:24+len(be)], binary.BigEndian)), "C13/NewUint128-BE-window/"+cl)
+				}
 				// JSON round trip of the value's own JSON form, and of the canonical decimal
 				var back Uint128
 				js2, _ := json.Marshal(u)
